@@ -26,7 +26,7 @@ LAGS = [0, 0, 0, 1, 2, "never"]
 
 
 def trace_cfg(pid):
-    return ("SPECIFICATION TSpec\nCONSTANTS\n  Slots = {1,2}\n  Enis = {1,2,3,4,5,6,7,8,9}\n  Enforce = {\"%s\"}\n"
+    return ("SPECIFICATION TSpec\nCONSTANTS\n  Slots = {1,2,3,4,5,6,7,8}\n  Enis = {1,2,3,4,5,6,7,8,9}\n  Enforce = {\"%s\"}\n"
             "CONSTRAINT Inv%s\nCONSTRAINT HighWater\nINVARIANT NotAccepted\nPOSTCONDITION Report\nCHECK_DEADLOCK FALSE\n" % (pid, pid))
 
 
@@ -195,6 +195,68 @@ def random_scenarios(seed, n):
     return S
 
 
+def sconf(v6=False, enis=2, cap=3, batch=2, min_idle=0, max_idle=1, pre=(), vsws=((1, 30), (2, 30)), tagf=False):
+    c = conf(v6=v6, pre=pre, vsws=vsws, tagf=tagf)
+    c["conf"].update(enis=enis, cap=cap, batch=batch, minIdle=min_idle, maxIdle=max_idle)
+    return c
+
+
+def plan(p=None, **kw):
+    d = dict(a="plan", plan=p or {}, mlag=0, alag=0, dlag=0)
+    d.update(kw)
+    return d
+
+
+def stack_scenarios(seed, n):
+    """Full stack (real pool on the real factory): ADD burst, shrink, failed assign, failed attach, lost replies, drift; then random ones."""
+    adds = lambda *ps: [dict(a="add", p=p) for p in ps]
+    dels = lambda *ps: [dict(a="del", p=p) for p in ps]
+    wait, nap = dict(a="addwait"), lambda s: dict(a="sleep", s=s)
+    S = []
+    for v6 in (False, True):
+        a6 = "AssignIpv6Addresses"
+        S.append([sconf(v6=v6)] + adds(1, 2, 3, 4) + [wait] + dels(1, 2, 3) + [nap(300)])                                   # burst + shrink
+        S.append([sconf(v6=v6, min_idle=2, max_idle=3, pre=[pre_eni(n4=2, n6=1 if v6 else 0)])] + adds(1, 2) + [wait, nap(300)] + dels(1, 2) + [nap(400)])
+        S.append([sconf(v6=v6), plan({"AssignPrivateIpAddresses": ["lost"] * 6})] + adds(1, 2, 3) + [wait] + adds(4) + [wait] + dels(1, 2, 3, 4) + [nap(300)])
+        S.append([sconf(v6=v6), plan({"AssignPrivateIpAddresses": ["eb:InvalidVSwitchId.IpNotEnough"], a6: ["partial:0", "lost"]})] + adds(1, 2, 3, 4, 5) + [wait, nap(200)])
+        S.append([sconf(v6=v6), plan({"AttachNetworkInterface": ["eb:EniPerInstanceLimitExceeded"]})] + adds(1, 2) + [wait, nap(200)] + adds(3) + [wait])
+        S.append([sconf(v6=v6), plan({"AttachNetworkInterface": ["lost"]}, dlag=1)] + adds(1, 2) + [wait, nap(200)])
+        S.append([sconf(v6=v6), plan(alag=1000)] + adds(1) + [wait, plan(), nap(120)] + adds(2) + [wait])
+        S.append([sconf(v6=v6), plan(mlag=1000)] + adds(1, 2) + [wait, plan()] + adds(3) + [wait])
+        S.append([sconf(v6=v6), plan({"CreateNetworkInterface": ["lost"], "DescribeNetworkInterfaces": ["eb:Throttling"]}, mlag=1, alag=1)] + adds(1, 2, 3) + [wait] + dels(1) + [nap(300)])
+        S.append([sconf(v6=v6), plan({"CreateNetworkInterface": ["ea", "eb:Throttling"]})] + adds(1) + [wait] + adds(2) + [wait, nap(200)])
+        S.append([sconf(v6=v6, pre=[pre_eni(n4=3, n6=2 if v6 else 0), pre_eni(n4=1, n6=1 if v6 else 0)], max_idle=0),
+                  plan({"DetachNetworkInterface": ["lost"], "DeleteNetworkInterface": ["eb:Throttling"], "UnassignPrivateIpAddresses": ["lost", "eb:Throttling"]}, dlag=1), nap(600)])
+        S.append([sconf(v6=v6, pre=[pre_eni(n4=3, n6=2 if v6 else 0)], max_idle=3)] + adds(1) + [wait, dict(a="remove", ei=0, fam=4, idx=1, mlag=1), nap(200)] + adds(2, 3) + [wait] + dels(1) + [nap(200)])
+        S.append([sconf(v6=v6, vsws=((1, 3), (2, 30)))] + adds(1, 2, 3, 4, 5, 6) + [wait, nap(100)])                          # one vSwitch runs dry
+    rng = random.Random(seed * 7717 + 3)
+    acts = [("CreateNetworkInterface", CREATE_OUT), ("AttachNetworkInterface", ATTACH_OUT), ("DescribeNetworkInterfaces", DESCRIBE_OUT),
+            ("AssignPrivateIpAddresses", ASSIGN_OUT), ("AssignIpv6Addresses", ASSIGN_OUT), ("UnassignPrivateIpAddresses", UNASSIGN_OUT),
+            ("UnassignIpv6Addresses", UNASSIGN_OUT), ("DetachNetworkInterface", DETACH_OUT), ("DeleteNetworkInterface", DELETE_OUT)]
+    for _ in range(n):
+        v6 = rng.random() < 0.35
+        sc = [sconf(v6=v6, enis=rng.randint(1, 3), cap=rng.randint(2, 4), batch=rng.randint(1, 3), min_idle=rng.randint(0, 2), max_idle=rng.randint(2, 4),
+                    pre=[pre_eni(n4=rng.randint(1, 3), n6=rng.randint(0, 2)) for _ in range(rng.randint(0, 2))], vsws=((1, rng.choice([4, 30])), (2, 30)))]
+        live, nextp = [], 1
+        for _ in range(rng.randint(3, 9)):
+            k = rng.choice(["add", "add", "add", "del", "wait", "nap", "plan", "plan", "remove"])
+            if k == "add":
+                sc.append(dict(a="add", p=nextp)); live.append(nextp); nextp += 1
+            elif k == "del" and live:
+                sc.append(dict(a="del", p=live.pop(rng.randrange(len(live)))))
+            elif k == "wait":
+                sc.append(wait)
+            elif k == "nap":
+                sc.append(nap(rng.choice([30, 130, 300])))
+            elif k == "plan":
+                sc.append(plan({a: [rng.choice(o) for _ in range(rng.choice([1, 1, 2, 7]))] for a, o in acts if rng.random() < 0.25},
+                               mlag=rng.choice([0, 0, 1, 2, 1000]), alag=rng.choice([0, 0, 1, 1000]), dlag=rng.choice([0, 0, 1, 3])))
+            elif k == "remove":
+                sc.append(dict(a="remove", ei=rng.randint(0, 2), fam=rng.choice([4, 6]) if v6 else 4, idx=rng.randint(0, 3), mlag=rng.choice([0, 1])))
+        S.append(sc)
+    return S
+
+
 def build(ctx, fake_time):
     """Test binary of pkg/factory/aliyun; fake_time: GOEXPERIMENT=synctest (the scenarios run on a virtual clock)."""
     old = os.environ.get("GOEXPERIMENT")
@@ -214,10 +276,10 @@ def build(ctx, fake_time):
     return dst
 
 
-def run_harness(ctx, binary, scen_file, nshard, tag, timeout=900):
+def run_harness(ctx, binary, scen_file, nshard, tag, timeout=900, test="TestVerifFactory"):
     def one(k):
         tf = os.path.join(ctx.scratch, "factory.%s.%d.trace.ndjson" % (tag, k))
-        rc, out = run_test_bin(ctx, binary, "TestVerifFactory", env=dict(VERIF_SCEN=scen_file, VERIF_TRACE=tf, VERIF_SHARD="%d/%d" % (k, nshard)),
+        rc, out = run_test_bin(ctx, binary, test, env=dict(VERIF_SCEN=scen_file, VERIF_TRACE=tf, VERIF_SHARD="%d/%d" % (k, nshard)),
                                timeout=timeout)
         if rc != 0 or not os.path.exists(tf):
             raise MachineryError("factory harness (%s) shard %d failed rc=%s\n%s" % (tag, k, rc, out[-3000:]))
@@ -272,6 +334,8 @@ def classify(pid, bad):
         return "%s_factory_%s_return%s" % (pid.lower(), bad.get("k"), "_error" if bad.get("err") else "")
     if ev == "http":
         return "%s_factory_request_%s" % (pid.lower(), bad.get("act"))
+    if ev == "quiescent":
+        return "%s_stack_pool_vs_cloud_at_quiescence" % pid.lower()
     return "%s_factory_at_%s" % (pid.lower(), ev)
 
 
@@ -358,13 +422,21 @@ def prepare(ctx):
                 fh.write(json.dumps(s) + "\n")
         traces = run_harness(ctx, sync_bin, sf, 8 if q else 16, "sync")
         log("factory: %d scenarios on the virtual clock: %d traces, %.1fs after the builds" % (len(scens), len(traces), time.time() - t0))
+        # full stack: the real pool (pkg/eni Manager + Locals) on top of the real factory, virtual clock only
+        sscens = stack_scenarios(ctx.seed, 40 if q else 900)
+        ssf = os.path.join(ctx.scratch, "factory.stack.scen.ndjson")
+        with open(ssf, "w") as fh:
+            for s in sscens:
+                fh.write(json.dumps(s) + "\n")
+        stack = run_harness(ctx, sync_bin, ssf, 8 if q else 16, "stack", test="TestVerifFactoryStack")
+        log("factory: %d full-stack scenarios: %d traces, %.1fs after the builds" % (len(sscens), len(stack), time.time() - t0))
         real = f_real.result()
         log("factory: %d scenarios on the real clock, %.1fs after the builds" % (len(real), time.time() - t0))
         mc, states, trans = f_mc.result()
     for s in subs:
         s.merge()
     log("factory: prepared in %.1fs" % (time.time() - t00))
-    ctx._factory = dict(mc=mc, states=states, transitions=trans, scens=scens, traces=traces, real=real,
+    ctx._factory = dict(mc=mc, states=states, transitions=trans, scens=scens, traces=traces, real=real, stack=stack,
                         nsrc={k: sum(1 for s, _ in scens if s == k) for k in ("tlc", "directed", "random")})
     return ctx._factory
 
@@ -372,7 +444,7 @@ def prepare(ctx):
 def stage(ctx, pid):
     assert pid in PIDS
     st = prepare(ctx)
-    alltr = st["traces"] + st["real"]
+    alltr = st["traces"] + st["real"] + st["stack"]
     t0 = time.time()
     vs = Sub(ctx, "val-" + pid)        # private scratch: the stages of one ctx may validate in parallel threads
     rej = tc.validate_many(vs, "Factory_trace", trace_cfg(pid), [strip(t) for t in alltr], max_reruns=8)
@@ -390,7 +462,7 @@ def stage(ctx, pid):
             tagc[g] = tagc.get(g, 0) + 1
     relevant = {"lost_reply", "refused", "partial", "token_replay", "eni_with_error", "addrs_with_error", "remote_remove", "two_callers"}
     return dict(states=st["states"], transitions=st["transitions"], traces=len(alltr), traces_validated_against_impl=len(alltr),
-                evaluations=len(alltr), traces_virtual_clock=len(st["traces"]), traces_real_clock=len(st["real"]),
+                evaluations=len(alltr), traces_virtual_clock=len(st["traces"]), traces_real_clock=len(st["real"]), traces_full_stack=len(st["stack"]),
                 events=sum(len(t) for t in alltr), factory_calls=sum(1 for t in alltr for r in t if r["ev"] == "call"),
                 http_requests=sum(1 for t in alltr for r in t if r["ev"] == "http"), scenario_sources=st["nsrc"], trace_tags=tagc,
                 distinct_nontrivial=len({h(strip(t)) for t in alltr if tags(t) & relevant}), rejected=len(rej),
@@ -408,4 +480,6 @@ ASSUMPTIONS = [
     "time: scenarios run inside a testing/synctest bubble (virtual clock, production back-off tables) plus a real-clock sample with millisecond back-off tables; "
     "lags (attach, detach, metadata) are counted in observations, never in time",
     "the vSwitch cache does not expire inside a scenario",
+    "full stack: the real pool (pkg/eni Manager + Locals wired as in daemon/builder.go) drives the real factory; its factory calls are recorded by a decorator, "
+    "the run ends with a drain (healthy cloud, ~15 virtual minutes) and the pool's Status() is compared with the cloud",
 ]
